@@ -1,0 +1,14 @@
+//! `cfg(libp2p_verif)` hook (verification harness, family `kad_beh`, properties C42/C43).
+//!
+//! Declared as a child of `handler` because [`RequestId`] has private fields. The handler
+//! events consumed by the behaviour (`HandlerEvent::PutRecord { record, request_id }`, ...)
+//! carry a `RequestId`, which only the handler itself can mint in production.
+
+use super::{RequestId, UniqueConnecId};
+
+/// Builds the `RequestId` the handler would assign to its `n`-th inbound substream.
+pub fn request_id(n: u64) -> RequestId {
+    RequestId {
+        connec_unique_id: UniqueConnecId(n),
+    }
+}
